@@ -18,7 +18,7 @@ RULE = ("[after the audit: + Signal init / MemoryData rows given as int, bool, I
 MODELLED = ("Shape.cast(range/Enum), Const.__init__, Const.cast(Cat/Slice), utils.bits_for/ceil_log2/exact_log2 are "
             "modelled in coq/Model/Shape.v; utils.py, Shape._unify, range branch, enum loop body and Const wrap are "
             "additionally regenerated from source (coq/Gen) and proved equal to the model; CPython's len(range)/range[-1], "
-            "enum iteration (aliases, Flag canonical members: coq/Model/Cast.v cast_flag), _get_init_value and MemoryData.Init "
+            "enum member iteration (cls.__members__: every declared member, aliases and multi-bit Flag members included), _get_init_value and MemoryData.Init "
             "(coq/Model/Cast.v get_init_value / mem_init) are hand-modelled and validated by the run")
 ASSUMPTIONS = ["CPython range semantics as modelled by Shape.range_len/range_nth (validated by the run)"]
 
@@ -193,15 +193,19 @@ def gen_cases(tier, seed):
                 elems = list(range(a, b, st))
                 probe = sorted(set([a, b, a - st, b - st, b + st, 0] + elems[:2] + elems[-1:]))
                 for v in probe:
+                    # the same value as an int, an IntEnum member, a plain Enum member, a Const: accepted iff the VALUE is an element
                     cases.append({"k": "init_x", "sp": sp, "i": v})
                     cases.append({"k": "init_x", "sp": sp, "i": ["ie", v, sorted({v, 1})]})
+                    cases.append({"k": "init_x", "sp": sp, "i": ["en", v, sorted({v, 1})]})
+                    cases.append({"k": "init_x", "sp": sp, "i": ["c", v, 5, True]})
                 v = rng.choice(probe)
-                cases.append({"k": "init_x", "sp": sp, "i": ["en", v, sorted({v, 1})]})
-                cases.append({"k": "init_x", "sp": sp, "i": ["c", v, 5, True]})
                 cases.append({"k": "init_x", "sp": sp, "i": ["cat", [["c", v, 5, True]]]})
+                cases.append({"k": "init_x", "sp": sp, "i": ["sl", ["c", 2 * v + 1, 7, True], 1, 6]})
                 cases.append({"k": "init_x", "sp": sp, "i": None})
                 # the same range as the shape of memory rows
                 row = [rng.choice(elems) if elems and rng.random() < 0.8 else rng.choice(probe) for _ in range(rng.randrange(0, 4))]
+                row = [x if rng.random() < 0.5 else rng.choice((["c", x, 5, True], ["en", x, sorted({x, 2})], ["ie", x, sorted({x, 2})]))
+                       for x in row]
                 cases.append({"k": "mem_init", "sp": sp, "depth": len(row) + rng.randrange(0, 3), "elems": row})
                 cases.append({"k": "const_range", "v": rng.choice(probe + [b, a + 100, -77]), "a": a, "b": b, "st": st})
     # MemoryData rows on Shape shapes: wrapped like Const; every kind of element; too many elements; default rows
@@ -419,10 +423,8 @@ def _initv(i):
         return f"(IInt {z(i)})"
     if i[0] == "b":
         return f"(IInt {int(bool(i[1]))})"
-    if i[0] == "ie":
-        return f"(IInt {z(i[1])})"            # an IntEnum member is an int
-    if i[0] == "en":
-        return f"(IEnum {zlist(i[2])} {z(i[1])})"
+    if i[0] in ("ie", "en"):
+        return f"(IEnum {zlist(i[2])} {z(i[1])})"      # Const.cast(member) = Const(member.value, Shape.cast(class)), IntEnum too
     return f"(IExpr {_cexpr(i)})"
 
 
@@ -487,37 +489,6 @@ def coq_term(c):
         o = f"(const_int_shape {z(c['v'])} {z(sh)})" if isinstance(sh, int) else f"(Some (Sh {z(sh[1])} {blit(sh[2])}))"
         return f"k_const_member_shape {o} {z(c['v'])}"
     raise ValueError(k)
-
-
-FINDING_FLAG = "C10-flag-multibit-member-shape"
-FINDING_RANGE_INIT = "C10-range-init-nonint-membership"
-
-
-def _init_value(i):
-    """integer value of an initialiser when it is an enum member or a single Const (None otherwise)"""
-    if isinstance(i, list) and i and i[0] in ("en", "ie"):
-        return i[1]
-    if isinstance(i, list) and i and i[0] == "c":
-        v, w, sg = i[1], i[2], i[3]
-        v &= (1 << w) - 1
-        return v - (1 << w) if sg and w and v >> (w - 1) else v
-    return None
-
-
-def known_finding(c, obs, model):
-    """The model follows the code in two places where the code contradicts the property text (both reported, see the
-    `..._refuted` theorems of Props/C10.v).  A mismatch is classified under the finding's id only when the implementation
-    answers what the PROPERTY asks for instead (i.e. after a fix of /repo, until the model is brought in line)."""
-    k = c["k"]
-    if k == "enum_cls" and "Flag" in c["cls"] and c.get("shape") is None and all(isinstance(m, int) for m in c["ms"]):
-        w, sg = G.enum_shape(c["ms"])
-        if obs == [1, w, int(sg)] and model != obs:
-            return FINDING_FLAG
-    if k == "init_x" and c["sp"][0] == "rg":
-        v = _init_value(c["i"])
-        if v is not None and v in range(c["sp"][1], c["sp"][2], c["sp"][3]) and obs == [1, v] and model[0] == 0:
-            return FINDING_RANGE_INIT
-    return None
 
 
 def explain(c):
